@@ -341,6 +341,16 @@ impl<'tcx> Cx<'tcx> {
                             GlobalAlloc::Function { instance } => {
                                 let _ = write!(s, ",\"fnptr\":{}", esc(&self.path(instance.def_id())));
                             }
+                            GlobalAlloc::Memory(al) => {
+                                // small byte-array constants (format_args! templates)
+                                let a = al.inner();
+                                let n = a.len();
+                                if n <= 512 && a.provenance().ptrs().is_empty() {
+                                    let bytes = a.inspect_with_uninit_and_ptr_outside_interpreter(0..n);
+                                    let v: Vec<String> = bytes.iter().map(|b| b.to_string()).collect();
+                                    let _ = write!(s, ",\"bytes\":[{}]", v.join(","));
+                                }
+                            }
                             _ => {}
                         }
                     }
